@@ -49,7 +49,7 @@ func smallProfile() *profile.Profile {
 }
 
 var paramPool = map[string][]string{
-	"f": {"foo", "a|b", "x y", "operator new ", " const$", "\tkey", " ", "é&=", "main", `main\..+Handler`, "a+b", "x%41", "a;b", "#x", "q?", "a&h=b", "50%", "+"}, "i": {"bar", "b+", "x&f=y"}, "h": {"hid", "h+i"}, "s": {"sh|main|foo", "s+|main|foo"}, "sf": {"foo", "fo+"}, "tf": {"k=v0"}, "ti": {"1kb:"}, "ts": {"k"}, "th": {"b"},
+	"f": {"foo", "a|b", "x y", "operator new ", " const$", "\tkey", " ", "é&=", "main", `main\..+Handler`, "a+b", "x%41", "a;b", "#x", "q?", "a&h=b", "50%", "+"}, "i": {"bar", "b+", "x&f=y", "false"}, "h": {"hid", "h+i", "false", "true"}, "s": {"sh|main|foo", "s+|main|foo"}, "sf": {"foo", "fo+"}, "tf": {"k=v0", "true"}, "ti": {"1kb:"}, "ts": {"k"}, "th": {"b"},
 	"n": {"7", "0", "3"}, "nf": {"0.25", "0", "0.0123456789", "0.333333333333", "1e-09"}, "ef": {"0.5", "0.000123456789"}, "trim": {"f", "t"}, "calltree": {"t"}, "rel": {"t"}, "unit": {"ms", "minimum"}, "compact": {"t"},
 	"mean": {"t"}, "norm": {"t"}, "sort": {"cum", "flat"}, "g": {"lines", "files", "functions"}, "noinlines": {"t"}, "showcolumns": {"t"}, "dropneg": {"t"}, "intel": {"t"}, "prunefrom": {"pf"},
 	"tagroot": {"k"}, "tagleaf": {"bytes"},
